@@ -132,7 +132,7 @@ Section ServerReads.
     nth_error (flight c helloLen plens) k = Some (DG pn pnLen h fs lf pk dl ix rp) ->
     valid_version ver -> zlen dcid = c_dcid c -> zlen scid = c_scid c -> zlen token = c_tokLen c ->
     zlen dcid <= 20 -> zlen scid <= 20 ->
-    1 <= pnLen <= 4 -> pn < 2 ^ 62 -> 0 <= c_ipn c < two64 ->
+    1 <= pnLen <= 4 -> pn < 2 ^ 62 -> 0 <= c_first c ->
     zlen payload = pk - h - overhead -> payload <> [] -> 4 <= pnLen + zlen payload ->
     (largest = pn - 1 \/ (largest = -1 /\ pn <= 2 ^ (pnLen * 8) / 2)) ->
     let hb := initialHeaderBytes ver dcid scid token lf pn pnLen in
@@ -148,7 +148,6 @@ Section ServerReads.
     intros Hnth Hv Ed Es Et Hd Hs Hp Hpn Hipn Hpl Hne Hmin Hlg hb pkt.
     pose proof (flight_ok _ _ _ _ _ Hnth) as Hok. cbn [dg_ok] in Hok.
     destruct Hok as (Hpnv & _ & Hh & Hlf & Hpk & _).
-    destruct (initialPN_spec (c_ipn c) Hipn) as (_ & _ & Hr).
     pose proof (zlen_nonneg payload) as Hpay0. pose proof (zlen_nonneg token) as Htok0.
     pose proof (zlen_nonneg dcid) as Hd0. pose proof (zlen_nonneg scid) as Hs0.
     pose proof (vlen_nonneg (c_tokLen c)) as Hvt.
